@@ -286,6 +286,16 @@ func genWorld(tape *kernel.Tape, env *kernel.Env, idx int) (*world, bool) {
 		}
 		st.Data = data[:off]
 		st.Term = &kernel.InjectedError{What: what}
+		// which error value the source fails with, and whether it says so once only (io.Reader does not promise more)
+		switch tape.Weighted("source-error-value", 3, 1, 1) {
+		case 1:
+			st.Term = io.ErrUnexpectedEOF // what a truncated download used as the upload's source reports
+			env.Fault("source-error-is-io.ErrUnexpectedEOF")
+		case 2:
+			st.Term = fmt.Errorf("source gone: %w", io.EOF)
+			env.Fault("source-error-wraps-io.EOF")
+		}
+		st.ErrOnce = tape.Bool(3, "source-error-reported-once")
 	}
 	if w.kind == "reader" || w.kind == "readcloser" {
 		w.raw = genContent(tape)
